@@ -142,7 +142,9 @@ CHECKS = {
         'thorough': {'shards': 16, 'timeout': 5400},
     },
     'C05': {
-        'pkg': 'internal/common', 'test': 'TestVerif_C05', 'level': 'exploration',
+        'pkg': 'internal/common', 'test': 'TestVerif_C05',
+        'parts': [{'pkg': 'internal/common', 'test': 'TestVerif_C05'}, {'pkg': 'internal/server', 'test': 'TestVerif_C05WS', 'shards': 6}],
+        'level': 'exploration',
         'technique': 'runtime monitor: exactly-one-read-per-message oracle on the real TLSConn and WebSocketConn (real gorilla handshake) over a segmenting in-memory network, enumerated cut positions, concurrent tagged writers, race detector',
         'level_text': 'The real record layers run over hnet with the receive direction segmented: every single cut position and every pair of cut positions of a short three-message exchange, then 1-byte, random and coalescing segmentation for all lengths 0..64, '
                       'the boundary lengths up to 16640 and random lengths; each Read must return exactly the next written message. Records larger than the reader\'s buffer must produce an error, never truncated data. 2..16 goroutines write checksummed tagged messages '
